@@ -48,7 +48,11 @@ def step (st : St) (fs : List String) : St × String :=
   | "casegraph" :: _ =>
     match impl with
     | [w] =>
-      if w.startsWith "e:" then ({ st with graph := none }, "-\tbad:artifacts-do-not-evaluate")
+      if w.startsWith "e:" then
+        -- a module that is not JavaScript is C09's finding (F13); anything else is reported
+        let msg := ((hexStr (w.drop 2).toString).map stringOfStr).getD ""
+        ({ st with graph := none },
+          if msg.startsWith "syntax-error" then "-\tok" else "-\tbad:artifacts-do-not-evaluate")
       else match parseGraph w with
         | some g => ({ st with graph := some g }, "-\tok")
         | none => ({ st with graph := none }, "-\tbad:machinery:graph-unparsed")
